@@ -83,8 +83,9 @@ Definition lblOK (sc : list frame) (ce : cenv) (vs : list sv) (n0 : nat) : Prop 
 (* the slots of all value variables in the compile-time environment, shadowed ones included (a function defined
    while a variable was visible still refers to it after the name has been rebound), and of the visible labels *)
 Definition kept (sc : list frame) (ce : cenv) (k : nat) : Prop :=
-  (exists x y, In (x, CV y) (ce_env ce) /\ index_of sc y = Some k) \/
-  (exists l y, lookup l (ce_lbls ce) = Some y /\ index_of sc y = Some k).
+  (exists x y, (In (x, CV y) (ce_env ce) \/ In (x, CP y) (ce_env ce)) /\ index_of sc y = Some k) \/
+  (exists l y, lookup l (ce_lbls ce) = Some y /\ index_of sc y = Some k) \/
+  ce_ghost ce k.
 
 Lemma encR_okerr : forall sc ce vs n0 fin x, lblOK sc ce vs n0 -> encR sc ce vs fin (Some x) -> okerr n0 x.
 Proof.
